@@ -239,6 +239,7 @@ def run_plan(pid, tier, seed, extra_cov=None, t0=None):
     C.log("[%s] replaying %d scripts (%d behaviours) against the real store" % (pid, len(scripts), nbeh))
     # 4. replay
     runs, hangs = api.replay(list(scripts.values()), pid)
+    C.panic_violations(pid, runs, script_by_run, violations)
     for h in hangs:
         sig = findings.match_hang(pid, h)
         if sig:
